@@ -77,7 +77,20 @@ func runC03(c *Ctx) {
 			s0 := g0.Eval(ptr)
 			pat0 := g0.ParamExprs(ptr)[0]
 			for _, x := range g0.U.Collect(g0.RetExpr(s0, 0), func(x *E) bool {
-				return x.Op == "call" && x.Aux == "(*strings.Replacer).Replace" && len(x.Args) == 2 && x.Args[1] == pat0 && x.Args[0].Op == "gload"
+				if !(x.Op == "call" && x.Aux == "(*strings.Replacer).Replace" && len(x.Args) == 2 && x.Args[0].Op == "gload") {
+					return false
+				}
+				// applied to the pattern, or to the pattern with its anchors cut off
+				for _, leaf := range leavesOf(g0.U, x.Args[1]) {
+					t := leaf
+					for t.Op == "slice" {
+						t = t.Args[0]
+					}
+					if t != pat0 {
+						return false
+					}
+				}
+				return true
 			}) {
 				replacerGlobal = x.Args[0].Aux[strings.LastIndex(x.Args[0].Aux, ".")+1:]
 			}
@@ -127,8 +140,20 @@ func runC03(c *Ctx) {
 		ras := u.Collect(res, isCall("strings.ReplaceAll"))
 		var rep *E
 		nEsc := 0
+		partOfPat := func(t *E) bool {
+			for _, leaf := range leavesOf(u, t) {
+				x := leaf
+				for x.Op == "slice" {
+					x = x.Args[0]
+				}
+				if x != pat {
+					return false
+				}
+			}
+			return true
+		}
 		for _, r := range reps {
-			if r.Args[1] == pat {
+			if r.Args[1] == pat || partOfPat(r.Args[1]) {
 				rep = r
 				nEsc++
 			}
@@ -144,13 +169,28 @@ func runC03(c *Ctx) {
 			return e.Args[0]
 		}
 		var pipes, stars, seps []*E
+		onePass := map[*E]bool{} // a replacer call that escapes the pipes and expands the masks at once
 		// a single-pass replacer for the masks (a package-level strings.NewReplacer of constants)
 		tables := replacerTables(c)
 		for _, r := range reps {
-			if r == rep || r.Args[0].Op != "gload" {
+			if r.Args[0].Op != "gload" {
 				continue
 			}
 			tb := tables[r.Args[0].Aux[strings.LastIndex(r.Args[0].Aux, ".")+1:]]
+			if r == rep {
+				// the escape table itself: it may carry the mask pairs too (one table for everything);
+				// its escape pairs are R1's business
+				if tb == nil || tb[K["MaskPipe"]] == "" {
+					continue
+				}
+				rest := map[string]string{}
+				for from, to := range tb {
+					if from == K["MaskPipe"] || from == K["MaskAnyCharacter"] || from == K["MaskSeparator"] {
+						rest[from] = to
+					}
+				}
+				tb = rest
+			}
 			if tb == nil {
 				c.Fail("C03.R4", "mask characters expanded everywhere", ptr.Pos(), "UNDECIDED: a replacer whose table is not a constant of the package initialiser is applied: "+clip(u.Show(r), 80))
 				continue
@@ -163,6 +203,14 @@ func runC03(c *Ctx) {
 				case K["MaskSeparator"]:
 					seps = append(seps, r)
 					c.Check(to == K["RegexSeparator"], "C03.R4", "'^' expands to RegexSeparator everywhere", ptr.Pos(), "replacer pair (MaskSeparator, RegexSeparator)", fmt.Sprintf("'^' is replaced by %q", to))
+				case K["MaskPipe"]:
+					// the pipes the anchors left over are escaped in the same pass
+					if to == `\`+K["MaskPipe"] {
+						pipes = append(pipes, r)
+						onePass[r] = true
+					} else {
+						c.Fail("C03.R4", "mask characters expanded everywhere", ptr.Pos(), fmt.Sprintf("the mask replacer rewrites the pipe to %q instead of escaping it", to))
+					}
 				default:
 					c.Fail("C03.R4", "mask characters expanded everywhere", ptr.Pos(), fmt.Sprintf("the mask replacer also rewrites %q to %q, which the syntax does not document", from, to))
 				}
@@ -194,21 +242,23 @@ func runC03(c *Ctx) {
 			bad = "inner pipes are never escaped"
 		case len(stars) != 1 || len(seps) != 1:
 			bad = fmt.Sprintf("expected one expansion of '*' and one of '^', found %d/%d", len(stars), len(seps))
+		case onePass[rep] && len(pipes) == 1 && pipes[0] == rep && stars[0] == rep && seps[0] == rep:
+			// one table, one pass over the pattern: there is no order to get wrong
 		default:
 			in := func(outer, inner *E) bool { return u.Mentions(outer, func(x *E) bool { return x == inner }) }
 			for _, p := range pipes {
-				if !in(p.Args[0], rep) {
+				if !in(textOf(p), rep) {
 					bad = "inner pipes are escaped before the special characters (the backslash of an escaped pipe would be escaped again)"
 				}
-				if in(p.Args[0], stars[0]) || in(p.Args[0], seps[0]) {
+				if in(textOf(p), stars[0]) || in(textOf(p), seps[0]) {
 					bad = "pipes are escaped after the expansion of * or ^: the '|' inside the separator class would be escaped"
 				}
 			}
 			for _, e := range []*E{stars[0], seps[0]} {
 				okP := false
 				for _, p := range pipes {
-					if in(textOf(e), p) {
-						okP = true
+					if in(textOf(e), p) || (e == p && onePass[p]) {
+						okP = true // after the pipe escaping, or in the same single pass
 					}
 				}
 				if !okP || !in(textOf(e), rep) {
@@ -221,6 +271,143 @@ func runC03(c *Ctx) {
 		}
 		c.Check(bad == "", "C03.R2", shortFn(ptr)+": escape -> inner-pipe escape -> expansion", ptr.Pos(), "containment of the data-flow stages in the result expression", bad)
 
+		// R3 in the single-pass form: the text handed to the pass is the escaped pattern without
+		// its anchors, in every alternative of the result - start-of-address anchor: two characters
+		// cut, under HasPrefix(text, "||"); start-of-string: one, under HasPrefix(text, "|") and not
+		// "||"; none: nothing cut, no leading pipe; "$" exactly where one character is cut at the end
+		onePassAnchorsOK := false
+		sawURL, sawStart, sawEnd := false, false, false
+		if len(onePass) > 0 && rep != nil {
+			type alt struct {
+				cond  Ref
+				parts []*E
+			}
+			var alts func(e *E, cond Ref, depth int) []alt
+			alts = func(e *E, cond Ref, depth int) []alt {
+				switch {
+				case depth > 12 || cond == False:
+					return []alt{{cond, []*E{e}}}
+				case e.Op == "ite":
+					return append(alts(e.Args[0], u.bdd.And(cond, e.B), depth+1), alts(e.Args[1], u.bdd.And(cond, u.bdd.Not(e.B)), depth+1)...)
+				case e.Op == "bin" && e.Aux == "+":
+					var out []alt
+					for _, l := range alts(e.Args[0], cond, depth+1) {
+						for _, r := range alts(e.Args[1], l.cond, depth+1) {
+							if len(out) > 256 || r.cond == False {
+								continue
+							}
+							out = append(out, alt{r.cond, append(append([]*E{}, l.parts...), r.parts...)})
+						}
+					}
+					return out
+				}
+				return []alt{{cond, []*E{e}}}
+			}
+			key := shortFn(ptr) + ": the single pass acts on the escaped pattern without its anchors"
+			badp := ""
+			nAlt := 0
+			hp := func(x *E, pre string) Ref {
+				return u.ToBool(u.LibCall("strings.HasPrefix", types.Typ[types.Bool], x, u.Str(pre)))
+			}
+			for leaf, lc := range u.Leaves(res) {
+				if !u.Mentions(leaf, func(x *E) bool { return onePass[x] }) {
+					continue
+				}
+				for _, al := range alts(leaf, lc, 0) {
+					if al.cond == False {
+						continue
+					}
+					var mids []*E
+					first, last := "", ""
+					for i, pe := range al.parts {
+						if sv, ok := pe.StrVal(); ok {
+							if len(mids) == 0 && i == 0 {
+								first = sv
+							} else if i == len(al.parts)-1 {
+								last = sv
+							} else if sv != "" {
+								badp = "constant text in the middle of the result"
+							}
+							continue
+						}
+						mids = append(mids, pe)
+					}
+					if len(mids) != 1 || !onePass[mids[0]] {
+						badp = "UNDECIDED: the result is not anchor + single pass + anchor: " + clip(u.Show(leaf), 100)
+						continue
+					}
+					nAlt++
+					text := u.Specialize(textOf(mids[0]), al.cond)
+					// nested slices down to the escaped pattern (or, with one table for everything,
+					// down to the pattern itself)
+					base := rep
+					if onePass[rep] {
+						base = pat
+					}
+					var lo int64
+					cutEnd := false
+					x := text
+					okShape := true
+					for x != base {
+						if x.Op != "slice" {
+							okShape = false
+							break
+						}
+						if x.Args[1] != nil {
+							v, ok := x.Args[1].IntVal()
+							if !ok {
+								okShape = false
+								break
+							}
+							lo += v
+						}
+						if x.Args[2] != nil {
+							want := u.Bin(token.SUB, u.Len(x.Args[0]), u.Int(1), types.Typ[types.Int])
+							if same, _ := semEqual(u, x.Args[2], want); !same || cutEnd {
+								okShape = false
+								break
+							}
+							cutEnd = true
+						}
+						x = x.Args[0]
+					}
+					if !okShape {
+						badp = "the text of the single pass is not a part of the escaped pattern cut at constant offsets: " + clip(u.Show(text), 100)
+						continue
+					}
+					hp2, hp1 := hp(base, K["MaskStartURL"]), hp(base, K["MaskPipe"])
+					switch {
+					case first == K["RegexStartURL"]:
+						sawURL = true
+						if lo != int64(len(K["MaskStartURL"])) || !u.bdd.Implies(al.cond, hp2) {
+							badp = "the start-of-address anchor is not tied to a leading || with exactly both pipes cut"
+						}
+					case first == K["RegexStartString"]:
+						sawStart = true
+						if lo != int64(len(K["MaskPipe"])) || !u.bdd.Implies(al.cond, u.bdd.And(hp1, u.bdd.Not(hp2))) {
+							badp = "the start-of-string anchor is not tied to a single leading pipe with exactly that pipe cut"
+						}
+					case first == "":
+						if lo != 0 || !u.bdd.Implies(al.cond, u.bdd.Not(hp1)) {
+							badp = "a leading pipe is neither an anchor nor part of the text (cut without an anchor, or left in and escaped)"
+						}
+					default:
+						badp = fmt.Sprintf("unexpected text %q in front of the pattern", first)
+					}
+					if last == K["RegexEndString"] && cutEnd {
+						sawEnd = true
+					}
+					if (last == K["RegexEndString"]) != cutEnd || (last != "" && last != K["RegexEndString"]) {
+						badp = "the end-of-string anchor and the cut of the trailing pipe do not go together"
+					}
+				}
+			}
+			if nAlt == 0 && badp == "" {
+				badp = "UNDECIDED: no alternative of the result contains the single pass"
+			}
+			c.Check(badp == "", "C03.R3", key, ptr.Pos(), fmt.Sprintf("%d alternatives of anchor + pass(text) + anchor", nAlt), badp)
+			onePassAnchorsOK = badp == "" && sawURL && sawStart && sawEnd
+		}
 		// R3 partition, on every case of the selections nested in the result (anchor length chosen
 		// by a condition, ...)
 		for _, resv := range u.CaseSplit(res) {
@@ -283,7 +470,7 @@ func runC03(c *Ctx) {
 			}
 		}
 		// R3 (coverage): the escaping may be skipped only where the inner region regex[P:len-1] cannot hold a pipe
-		if rep != nil && len(stars) == 1 && len(seps) == 1 {
+		if rep != nil && len(stars) == 1 && len(seps) == 1 && len(onePass) == 0 {
 			in := func(outer, inner *E) bool { return u.Mentions(outer, func(x *E) bool { return x == inner }) }
 			esc := textOf(stars[0])
 			if in(esc, seps[0]) && seps[0] != stars[0] {
@@ -392,6 +579,10 @@ func runC03(c *Ctx) {
 					okEnd = true
 				}
 			}
+		}
+		if onePassAnchorsOK {
+			// judged with conditions and offsets by the single-pass form of R3
+			okStartURL, okStart, okEnd = true, true, true
 		}
 		// the same read off a result that is put together at the end (anchors chosen first, one
 		// concatenation): every alternative of start + middle + end
@@ -878,5 +1069,17 @@ func replacerTables(c *Ctx) map[string]map[string]string {
 			}
 		}
 	})
+	return out
+}
+
+// leavesOf lists the alternatives of a selection (the expression itself when it is none).
+func leavesOf(u *U, e *E) []*E {
+	var out []*E
+	for leaf := range u.Leaves(e) {
+		out = append(out, leaf)
+	}
+	if len(out) == 0 {
+		out = append(out, e)
+	}
 	return out
 }
